@@ -14,10 +14,10 @@ This is the semantic property under study (JSON record):
 
 {json.dumps(p, indent=1, ensure_ascii=False)}
 
-Your task: produce TWO independent, realistic changes (bugs) to the mwlib/qs sources, each of which BREAKS this property while the code still compiles/imports and the existing test suite still passes completely (`./run_tests.sh` shows the same pass count as before, no new failures). Think of the kind of regression a maintainer could plausibly introduce in a refactoring, optimisation or "small cleanup" - not sabotage that ordinary use would expose at once. Prefer changes that need something specific to manifest: a particular interleaving, a crash or fault at a particular point, a multi-step sequence of operations, an unusual but in-domain input, or two cooperating sites that each look fine alone. The two changes should use different mechanisms / different code sites. Stay inside the property's quantifier (inputs it excludes do not count), and make sure the breakage is a real violation of the statement, not merely a behaviour change the statement allows.
+Your task: produce THREE independent, realistic changes (bugs) to the mwlib/qs sources, each of which BREAKS this property while the code still compiles/imports and the existing test suite still passes completely (`./run_tests.sh` shows the same pass count as before, no new failures). Think of the kind of regression a maintainer could plausibly introduce in a refactoring, optimisation or "small cleanup" - not sabotage that ordinary use would expose at once. Prefer changes that need something specific to manifest: a particular interleaving, a crash or fault at a particular point, a multi-step sequence of operations, an unusual but in-domain input, or two cooperating sites that each look fine alone. The three changes should use different mechanisms and different code sites (spread them over the files and mechanisms the property record names, including the less obvious ones). Stay inside the property's quantifier (inputs it excludes do not count), and make sure the breakage is a real violation of the statement, not merely a behaviour change the statement allows.
 
-For EACH change deliver, under {wt}/out/1/ and {wt}/out/2/:
+For EACH change deliver, under {wt}/out/1/, {wt}/out/2/ and {wt}/out/3/:
   - patch.diff : `git diff` of the change against the worktree's HEAD (sources only; must apply with `git apply` to a clean checkout)
   - demo.py    : a small self-contained program (run as `{wt}/py demo.py`) that exits 0 / prints PASS on the unmodified tree and exits non-zero / prints FAIL with the change applied. It must show the property being violated (not just that code differs).
   - meta.json  : {{"property": "{pid}", "summary": "...", "needs_to_manifest": "what specific input/sequence/interleaving/fault is needed", "files_touched": [...], "tests_run": "output tail of ./run_tests.sh with the change applied", "demo_without_change": "...", "demo_with_change": "..."}}
-Work on one change at a time: apply it, run the test suite, run the demo, save `git diff > out/N/patch.diff`, then `git checkout -- src` to revert before the next one (keep out/ untracked). Verify each demo on both the unmodified and the modified tree. Leave the worktree with the sources reverted (clean `git status` apart from out/ and the helper files). In your final message, summarise both changes in a few lines each.""")
+Work on one change at a time: apply it, run the test suite, run the demo, save `git diff > out/N/patch.diff`, then `git checkout -- src` to revert before the next one (keep out/ untracked). Verify each demo on both the unmodified and the modified tree. Leave the worktree with the sources reverted (clean `git status` apart from out/ and the helper files). In your final message, summarise the changes in a few lines each.""")
